@@ -335,7 +335,7 @@ def run_case(case):
 def enumerate_cases(tier, seed):
     import random
     rng = random.Random(seed)
-    reps = 5 if tier == "quick" else 30
+    reps = 5 if tier == "quick" else 100
     for failure, farmers in FAILURES.items():
         for farmer in farmers:
             for clean_up in (None, True, False):
